@@ -235,7 +235,7 @@ func (g *projGen) perturb(m *pMethod, structNames []string) string {
 		}
 	}
 	kinds := []string{"add-unbound-param", "add-url-param", "results-none", "results-three", "results-nonerror", "verb-invalid", "verb-unsupported", "unknown-annotation", "bad-status",
-		"verb-case", "dup-path-alias", "swap-path-alias", "prefix-url-param", "alias-steals-variable", "second-route", "alias-collides-with-name", "warn-prop-and-error", "bind-context", "unexported-method"}
+		"verb-case", "dup-path-alias", "swap-path-alias", "prefix-url-param", "alias-steals-variable", "second-route", "alias-collides-with-name", "warn-prop-and-error", "bind-context", "unexported-method", "repeat-bound-url-param"}
 	if len(bindIdx) > 0 {
 		kinds = append(kinds, "drop-annot", "dup-annot", "rename-annot-value", "retype-struct", "retype-slice", "bad-alias", "annot-no-value")
 	}
@@ -308,6 +308,23 @@ func (g *projGen) perturb(m *pMethod, structNames []string) string {
 		m.Annots[i] = pAnnot{Name: m.Annots[i].Name}
 	case "add-unbound-param":
 		m.Params = append(m.Params, pParam{Name: "extra", Type: "string"})
+	case "repeat-bound-url-param":
+		// a `{name}` that some @Path already binds - a variable of the method's own route or of the controller's prefix -
+		// written once more in the method route: a duplicate URL parameter of the FULL template
+		if routeIdx < 0 {
+			return "none"
+		}
+		for _, i := range bindIdx {
+			if m.Annots[i].Name == "Path" {
+				n := m.Annots[i].Value
+				if al, ok := m.Annots[i].Props["name"].(string); ok && al != "" {
+					n = al
+				}
+				m.Annots[routeIdx].Value += "/again/{" + n + "}"
+				return "repeat-bound-url-param"
+			}
+		}
+		return "none"
 	case "add-url-param":
 		if routeIdx >= 0 {
 			m.Annots[routeIdx].Value += "/{zz}"
